@@ -145,7 +145,7 @@ def partitions(tier):
     return parts
 
 
-MUST_REACH = ["reread_with_outage", "write_after_failed_reread_refused", "format_wipe", "format_no_wipe", "rsv_inside_message", "rsv_beyond_data_area",
+MUST_REACH = ["reread_with_outage", "format_wipe", "format_no_wipe", "rsv_inside_message", "rsv_beyond_data_area",
               "rsv_at_end_of_data_area", "rsv_before_ndef_tlv"]
 BOUNDS = {"quick": "the Type 1/2 structured layouts of C01 (incl. the 296-byte Type 1 layouts with 257/258 bytes left and 216 guard bytes behind the declared area), Type 3 (four triples, emulation too) and Type 4 (6 guard bytes behind the declared file) worlds; message lengths from boundary sets up to capacity+8; format with/without a symbolic wipe byte; all other memory symbolic",
           "thorough": "as quick with every length for 48-byte areas and larger data areas"}
